@@ -118,16 +118,18 @@ impl<T> Matrix<T> {
             return Err(Error::IndexOutOfBounds);
         }
         let base = self.data.as_mut_ptr();
-        let mut index = m * self.minor_stride();
-        let mut jndex = n * self.minor_stride();
-        for _ in 0..self.major() {
+        let index = m * self.minor_stride();
+        let jndex = n * self.minor_stride();
+        for i in 0..self.major() {
+            // The offset is recomputed instead of accumulated: accumulating adds the
+            // stride once more after the last vector, which overflows `usize` for
+            // zero-sized element types with close to `usize::MAX` elements.
+            let offset = i * self.major_stride();
             unsafe {
-                let x = base.add(index);
-                let y = base.add(jndex);
+                let x = base.add(index + offset);
+                let y = base.add(jndex + offset);
                 ptr::swap(x, y);
             }
-            index += self.major_stride();
-            jndex += self.major_stride();
         }
         Ok(self)
     }
